@@ -97,7 +97,9 @@ def gen_cfg(rng, tier: str, big: bool = False, diff: bool = False) -> dict:
     if big or r < 0.25:
         # more payload blocks than the chunk ratio: sector-bitmap entries interleave in the BAT
         nblocks = ratio * rng.choice([1, 1, 2, 3]) + rng.choice([1, 2, 5, ratio // 2 + 1])
-        if not big and nblocks * bs_mb > (64 << 20):  # cap at 64 TiB
+        if big and rng.random() < 0.5:
+            nblocks = min(4 << 20, ((rng.choice([1, 16, 60]) << 40) // (bs_mb * MB)) + rng.randrange(7))
+        if nblocks * bs_mb > (64 << 20):  # cap at 64 TiB
             nblocks = ratio + 2
     else:
         nblocks = rng.choice([1, 2, 3, 4, 5, 9])
